@@ -268,7 +268,8 @@ def _run_path(world, c, params, tag, it, path, rep, first):
         elif a.kwarg and p == a.kwarg.arg:
             fr.vars[p] = {}
         else:
-            raise Unsupported('no value for parameter %s' % p)
+            # a parameter the contract does not mention: any value at all
+            fr.vars[p] = make_param(p, TVal, path)
     it.ghost_vars.update(path.ghost)
     if getattr(fr, 'method_owner', None) is not None and 'self' in env:
         fr.method_self = env['self']
